@@ -18,9 +18,10 @@
 //     setUpEverything()): the method-level kinds apply to them like to any method, and they are only put into classes
 //     that have another ordinary method and fewer than 18 ordinary methods, so that the class-level verdicts are the
 //     same whether or not one calls them getters/setters;
-//   - interface methods (and only those) may have their modifiers and/or own type-parameter list on the line above
-//     the return type (`default <T extends Comparable<T>>` / `T pick(…) {`): the declaration then starts on that
-//     upper line. Class methods always keep modifiers, return type and name on one line;
+//   - the keyword modifiers and/or the method's own type-parameter list may stand on the line above the return type
+//     (`default <T extends Comparable<T>>` / `T pick(…) {`, `public static` / `int run(…) {`): the declaration then
+//     starts on that upper line (keyword modifiers and type parameters are part of the declaration); annotations are
+//     never generated, so no line can be taken for the start of the declaration but that one;
 //   - lambdas only as one-line expression lambdas in local initialisers (typed `(Integer x, Integer y) -> x + y` or
 //     inferred `(x, y) -> x + y`): their parameters are not parameters of the method, and no statement hides in them;
 //   - one top-level type per file, no nested / anonymous / local types, no enums / records / annotations;
@@ -51,9 +52,10 @@ type Method struct {
 	Varargs       bool `json:"varargs,omitempty"`
 	Generic       bool `json:"generic,omitempty"` // declares its own type parameter: `<T> void name(…)`
 	HasBody       bool `json:"has_body"`
-	// HeadSplit: (interface methods) the modifiers and/or the method's own type-parameter list stand on StartLine, the
+	// HeadSplit: the keyword modifiers and/or the method's own type-parameter list stand on StartLine, the
 	// return type and the name on the next line: `default <T extends Comparable<T>>` / `T pick(T a, T b) {`
-	HeadSplit bool `json:"head_split,omitempty"`
+	HeadSplit bool   `json:"head_split,omitempty"`
+	HeadFirst string `json:"head_first,omitempty"` // first token of that upper line: default | static | public | … | type-parameters
 	// TypedLambdaParams: explicitly typed lambda parameters in the body (`(Integer x, Integer y) -> x + y`); they are
 	// not parameters of the method
 	TypedLambdaParams int    `json:"typed_lambda_params,omitempty"`
@@ -157,8 +159,11 @@ func SelfCheck(p *Project) error {
 				// the first line holds modifiers / type parameters only, the name follows on the next line
 				first, _ := at(m.StartLine)
 				ft := strings.TrimSpace(first)
-				if c.Kind != "interface" || ft == "" || strings.ContainsAny(ft, "(){};") ||
-					!(strings.HasPrefix(ft, "default") || strings.HasPrefix(ft, "static") || strings.HasPrefix(ft, "public") || strings.HasPrefix(ft, "<")) {
+				okStart := false
+				for _, kw := range []string{"default", "static", "public", "protected", "private", "abstract", "final", "synchronized", "<"} {
+					okStart = okStart || strings.HasPrefix(ft, kw)
+				}
+				if ft == "" || strings.ContainsAny(ft, "(){};@") || !okStart {
 					return fmt.Errorf("%s: line %d is not a modifier / type-parameter line: %q", c.RelPath, m.StartLine, first)
 				}
 				nameLine++
